@@ -441,6 +441,14 @@ class NumpyBackend(BackendBase[NumericArray]):
         class NumpyArrayPrinter(PythonCodePrinter):
             """Special sympy printer returning numpy arrays."""
 
+            def _print_Integer(self, expr):
+                # sympy's simplification can produce integers beyond the range of
+                # int64 (e.g., 48*log(7) becomes log(7**48)), which numpy's ufuncs and
+                # numba cannot handle; such literals are printed as floats
+                if abs(int(expr)) >= 2**63:
+                    return repr(float(expr))
+                return super()._print_Integer(expr)
+
             def _print_ImmutableDenseNDimArray(self, arr):
                 # broadcast all components at once, so constant components are
                 # compatible with those that depend on array-valued arguments
